@@ -58,9 +58,16 @@ func (conn *Conn) close() {
 		op.ConnClosed(conn)
 	}
 
-	/* call FidDestroy for all remaining fids */
+	/* call FidDestroy for all remaining fids; requests that are still
+	 * executing can change the table, so work on a copy */
 	if op, ok := (conn.Srv.ops).(SrvFidOps); ok {
+		conn.Lock()
+		fids := make([]*SrvFid, 0, len(conn.fidpool))
 		for _, fid := range conn.fidpool {
+			fids = append(fids, fid)
+		}
+		conn.Unlock()
+		for _, fid := range fids {
 			op.FidDestroy(fid)
 		}
 	}
